@@ -271,7 +271,7 @@ def run(ctx):
     if tier == 'quick':
         order = list(range(len(U)))
         rnd.shuffle(order)
-        chosen = sorted(order[:350])
+        chosen = sorted(order[:500])
     else:
         chosen = range(len(U))
     idx = 0
@@ -304,7 +304,7 @@ def run(ctx):
     # partials of forwarding wrappers
     outers = [o for o in sigs.U(('a', 'b'), 2, stars=sigs.STARS2[:1]) if sigs.has_kind(o, VA) or sigs.has_kind(o, VK)]
     callees = sigs.U(('x', 'y', 'z'), 2, stars=sigs.STARS2[:1])
-    nfw = {'quick': 1500, 'thorough': 40000}[tier] // ctx.nshards
+    nfw = {'quick': 2500, 'thorough': 200000}[tier] // ctx.nshards
     for _ in range(nfw):
         if ctx.out_of_time('forwarding partials'):
             break
